@@ -471,6 +471,8 @@ type Clause struct {
 	Src  string
 	Pos  string
 	Name string // optional label
+	From []int  // loop asserts: prove from these earlier asserts of the same loop only (isolated cut)
+	FromAxioms bool // ... plus the axiom instances about bit-operation terms that occur (`from 1 +axioms`)
 }
 
 func (c *Clause) visible(prop string) bool {
@@ -818,11 +820,45 @@ func (cs *ContractSet) ReadFile(path, pkgName string, external bool) error {
 					}
 					ls.Invs = append(ls.Invs, &Clause{Tags: t2, E: e, Src: body, Pos: l.pos})
 				case "assert":
+					var from []int
+					withAx := false
+					if i := strings.LastIndex(body, " from "); i >= 0 {
+						spec := strings.TrimSpace(body[i+6:])
+						okSpec := true
+						if strings.HasSuffix(spec, "+axioms") {
+							withAx = true
+							spec = strings.TrimSpace(strings.TrimSuffix(spec, "+axioms"))
+						}
+						for _, part := range strings.Split(spec, ",") {
+							part = strings.TrimSpace(part)
+							if a, b, found := strings.Cut(part, ".."); found {
+								x, e1 := strconv.Atoi(a)
+								y, e2 := strconv.Atoi(b)
+								if e1 != nil || e2 != nil {
+									okSpec = false
+									break
+								}
+								for k := x; k <= y; k++ {
+									from = append(from, k)
+								}
+							} else if x, e1 := strconv.Atoi(part); e1 == nil {
+								from = append(from, x)
+							} else {
+								okSpec = false
+								break
+							}
+						}
+						if okSpec {
+							body = strings.TrimSpace(body[:i])
+						} else {
+							from = nil
+						}
+					}
 					e, err := ParseCExpr(body, l.pos)
 					if err != nil {
 						return err
 					}
-					ls.Asserts = append(ls.Asserts, &Clause{Tags: t2, E: e, Src: body, Pos: l.pos})
+					ls.Asserts = append(ls.Asserts, &Clause{Tags: t2, E: e, Src: body, Pos: l.pos, From: from, FromAxioms: withAx})
 				case "decreases":
 					if body == "_" {
 						ls.AssumeTerm = true
